@@ -231,7 +231,8 @@ func (a *vfAuth) Authenticate(addr net.Addr, auth string, tx uint64) (bool, stri
 		return true, id
 	}
 	a.log.Ev("auth_rej", conn, map[string]any{"auth": auth})
-	return false, ""
+	// A rejecting authenticator may still return an id (extras/auth's HTTP backend does): it must mean nothing.
+	return false, "rejected-id-of-" + auth
 }
 
 // vfOutbound records every call. TCP results come from OnTCP (default: refuse).
@@ -461,7 +462,8 @@ func (w *vfWorld) Close() {
 // at the server's authenticator/event logger.
 func (w *vfWorld) ClientAddr() *net.UDPAddr {
 	n := int(w.nextClient.Add(1))
-	return &net.UDPAddr{IP: net.IPv4(10, 1, byte(n>>8), byte(n)), Port: 10000 + n%50000}
+	// only three client IPs: several connections share a host and differ in the port only
+	return &net.UDPAddr{IP: net.IPv4(10, 1, 0, byte(1+n%3)), Port: 10000 + n%50000}
 }
 
 // vfFactory hands a prepared endpoint to client.NewClient.
